@@ -7,7 +7,7 @@ import ast
 from ..cfg import build_cfg, calls_in, node_calls
 from ..core import Ctx, property_info, rule, share
 from ..model import AnalysisError, FuncInfo, walk_no_nested
-from ..q import A, asrc, bound_arg, enum_members, is_self_attr, kwarg, stores, unparse
+from ..q import A, Dispatch, L, asrc, bound_arg, enum_members, is_self_attr, kwarg, stores, unparse
 from .c03 import declare_before_use, event_grammar, writer_typestate
 
 M = "xsdata.formats.dataclass.models"
@@ -29,27 +29,27 @@ share("C01", "C01.R6", declare_before_use)
 share("C01", "C01.R9", writer_typestate)  # text / tail state machine of the writer: mixed content cannot round-trip if tail state leaks between elements  # a QName value whose prefix is declared too late cannot be read back
 
 
+def _true_flag_stores(nodes) -> set[str]:
+    out: set[str] = set()
+    for n in nodes:
+        st = n.ast
+        if n.kind == "stmt" and isinstance(st, ast.Assign) and isinstance(st.value, ast.Constant) and st.value.value is True:
+            out |= {t.attr for t in st.targets if is_self_attr(t)}
+    return out
+
+
 def _kind_chain(ctx: Ctx) -> tuple[dict[str, str], str | None]:
-    """XmlVar.__init__'s if/elif chain over xml_type: constant -> flag set; flag of the final else."""
+    """XmlVar.__init__ partially evaluated per xml_type constant: constant -> the kind flag set to True; flag of the default."""
     init = ctx.repo.func(f"{M}.elements:XmlVar.__init__")
+    # `or self.clazz` (a field typed with a model is always an element) is the one non-key condition of the dispatch
+    d = Dispatch(init.node, is_subject=lambda e: unparse(e) == "xml_type", extra=lambda t: False if unparse(t) == "self.clazz" else None)
     out: dict[str, str] = {}
-    else_flag = None
-    for n in walk_no_nested(init.node):
-        if isinstance(n, ast.If) and "xml_type ==" in unparse(n.test) and "XmlType." in unparse(n.test):
-            chain = n
-            while True:
-                consts = [x.attr for x in ast.walk(chain.test) if isinstance(x, ast.Attribute) and isinstance(x.value, ast.Name) and x.value.id == "XmlType"]
-                flags = [t.attr for st in chain.body if isinstance(st, ast.Assign) for t in st.targets if is_self_attr(t) and isinstance(st.value, ast.Constant) and st.value.value is True]
-                for c in consts:
-                    out[c] = flags[0] if flags else "?"
-                if len(chain.orelse) == 1 and isinstance(chain.orelse[0], ast.If):
-                    chain = chain.orelse[0]
-                    continue
-                ef = [t.attr for st in chain.orelse if isinstance(st, ast.Assign) for t in st.targets if is_self_attr(t)]
-                else_flag = ef[0] if ef else None
-                break
-            break
-    return out, else_flag
+    for key in sorted(d.keys):
+        if key.startswith("XmlType."):
+            flags = _true_flag_stores(d.under(key))
+            out[key.split(".", 1)[1]] = next(iter(flags)) if len(flags) == 1 else "?"
+    ef = _true_flag_stores(d.under(None))
+    return out, (next(iter(ef)) if len(ef) == 1 else None)
 
 
 @rule("C01.R1")
@@ -74,31 +74,38 @@ def kind_totality(ctx: Ctx) -> None:
     # bucket chain in XmlMetaBuilder.build
     build = ctx.repo.func(f"{M}.builders:XmlMetaBuilder.build")
     buckets: dict[str, str] = {}
-    else_bucket = None
-    for n in walk_no_nested(build.node):
-        if isinstance(n, ast.If) and unparse(n.test).startswith("var.is_"):
-            chain_n = n
-            while True:
-                flag = unparse(chain_n.test).split(".", 1)[1]
-                tgt = None
-                for st in chain_n.body:
-                    for sub in [st, *walk_no_nested(st)]:
-                        if isinstance(sub, ast.Assign) and isinstance(sub.targets[0], ast.Subscript):
-                            tgt = tgt or unparse(sub.targets[0].value)
-                        if isinstance(sub, ast.Call) and isinstance(sub.func, ast.Attribute) and sub.func.attr == "append":
-                            base = sub.func.value
-                            tgt = tgt or unparse(base.value if isinstance(base, ast.Subscript) else base)
-                buckets[flag] = tgt or "?"
-                if len(chain_n.orelse) == 1 and isinstance(chain_n.orelse[0], ast.If):
-                    chain_n = chain_n.orelse[0]
-                    continue
-                for st in chain_n.orelse:
-                    if isinstance(st, ast.Assign):
-                        else_bucket = unparse(st.targets[0])
-                break
-            break
-    if else_bucket:
-        buckets.setdefault("is_text", else_bucket)
+
+    def flag_of(t: ast.AST):
+        if isinstance(t, ast.Attribute) and t.attr.startswith("is_") and L(build, t.value) == "_":
+            return frozenset([t.attr]), True
+        return None
+
+    def bucket_targets(nodes) -> set[str]:
+        tg: set[str] = set()
+        for n in nodes:
+            if n.kind != "stmt" or n.ast is None:
+                continue
+            st = n.ast
+            if isinstance(st, ast.Assign):
+                t0 = st.targets[0]
+                if isinstance(t0, ast.Subscript) and isinstance(st.value, ast.Name):
+                    tg.add(unparse(t0.value))
+                elif isinstance(t0, ast.Name) and isinstance(st.value, ast.Name) and L(build, st.value) == "_":
+                    tg.add(t0.id)
+            for sub in ast.walk(st):
+                if isinstance(sub, ast.Call) and isinstance(sub.func, ast.Attribute) and sub.func.attr == "append":
+                    base = sub.func.value
+                    tg.add(unparse(base.value if isinstance(base, ast.Subscript) else base))
+        return tg
+
+    bd = Dispatch(build.node, classify=flag_of)
+    common = bucket_targets(bd.under("is_none_of_them")) & bucket_targets(bd.under(sorted(bd.keys)[0] if bd.keys else None))
+    for flag in sorted(bd.keys):
+        tg = bucket_targets(bd.under(flag)) - common
+        buckets[flag] = next(iter(tg)) if len(tg) == 1 else (sorted(tg)[0] if tg else "?")
+    else_t = bucket_targets(bd.under(None)) - common
+    if else_t:
+        buckets.setdefault("is_text", sorted(else_t)[0])
     # keyword the bucket is passed as to XmlMeta(...)
     meta_kw = {}
     for c in calls_in(build.node):
@@ -185,7 +192,7 @@ def conversion_parameters(ctx: Ctx) -> None:
                     ctx.ob(f"{ci.name}.{m.name}: parse_var(ns_map=self.ns_map)", kwarg(c, "ns_map") is not None and unparse(kwarg(c, "ns_map")) == "self.ns_map", at=m, node=c,
                            msg="QName / xsi values resolved without the element's in-scope prefixes")
                     ctx.ob(f"{ci.name}.{m.name}: parse_var(meta=self.meta, var=..., config=self.config|config)", unparse(kwarg(c, "meta") or ast.Constant(0)) == "self.meta"
-                           and unparse(kwarg(c, "config") or ast.Constant(0)) in ("self.config", "config"), at=m, node=c, construct=f"{m.name} meta/config", msg="wrong meta/config passed")
+                           and L(m, kwarg(c, "config") or ast.Constant(0)) in ("self.config", "_"), at=m, node=c, construct=f"{m.name} meta/config", msg="wrong meta/config passed")
     ctx.floor("parse_var call sites in nodes", n, 5)
     # StandardNode uses the xsi:type datatype's own type and format on both sides
     sb = ctx.repo.func(f"{PAR}.nodes.standard:StandardNode.bind")
@@ -256,11 +263,14 @@ def wrapper_symmetry(ctx: Ctx) -> None:
     """The writer brackets wrapped values with var.wrapper_qname; the reader indexes wrappers by the same attribute."""
     cd = ctx.repo.func(f"{SER}:EventGenerator.convert_dataclass")
     ys = [y.value for y in walk_no_nested(cd.node) if isinstance(y, ast.Yield) and isinstance(y.value, ast.Tuple)]
-    s = [y for y in ys if unparse(y.elts[0]).endswith("START") and unparse(y.elts[1]) == "var.wrapper_qname"]
-    e = [y for y in ys if unparse(y.elts[0]).endswith("END") and unparse(y.elts[1]) == "var.wrapper_qname"]
+    s = [y for y in ys if unparse(y.elts[0]).endswith("START") and L(cd, y.elts[1]) == "_.wrapper_qname"]
+    e = [y for y in ys if unparse(y.elts[0]).endswith("END") and L(cd, y.elts[1]) == "_.wrapper_qname"]
     ctx.ob("writer emits START/END var.wrapper_qname around wrapped values", len(s) == 1 and len(e) == 1, at=cd, construct="wrapper bracket", msg="wrapper element not written symmetrically")
     b = ctx.repo.func(f"{M}.builders:XmlMetaBuilder.build")
-    ok = any(isinstance(tgt, ast.Subscript) and unparse(tgt) == "wrappers[var.wrapper_qname]" and unparse(val) == "var.qname" for _, tgt, val in stores(b.node))
+    meta_call = [c for c in calls_in(b.node) if unparse(c.func) == "XmlMeta"]
+    wmap = unparse(kwarg(meta_call[0], "wrappers")) if meta_call and kwarg(meta_call[0], "wrappers") is not None else None
+    ok = wmap is not None and any(isinstance(tgt, ast.Subscript) and unparse(tgt.value) == wmap and L(b, tgt.slice) == "_.wrapper_qname" and L(b, val) == "_.qname"
+                                  and ast.unparse(tgt.slice.value) == ast.unparse(val.value) for _, tgt, val in stores(b.node) if isinstance(tgt, ast.Subscript) and isinstance(tgt.slice, ast.Attribute) and isinstance(val, ast.Attribute))
     ctx.ob("reader's wrappers map is keyed by var.wrapper_qname -> var.qname", ok, at=b, construct="wrappers map", msg="wrapper map built from another attribute than the one written")
     st = ctx.repo.func(f"{PAR}.bases:NodeParser.start")
     ctx.ob("NodeParser.start consults meta.wrappers before delegating to child()", A("_ in _.meta.wrappers") in asrc(st) and A("WrapperNode(parent=_, qname=_, ns_map=_)") in asrc(st), at=st,
@@ -288,11 +298,11 @@ def any_type_marker_guard(ctx: Ctx) -> None:
     deps_true = [t for t in g.nodes if t.kind == "test" and g.only_if(y.id, t.id, True)]
     deps_false = [t for t in g.nodes if t.kind == "test" and g.only_if(y.id, t.id, False)]
     texts_t = [A(unparse(t.ast)) for t in deps_true]
-    bare = [t for t in deps_true + deps_false if isinstance(t.ast, ast.Name) and t.ast.id == "value"]
+    bare = [t for t in deps_true + deps_false if isinstance(t.ast, ast.Name) and t.ast.id == "value"]  # `value` and `var` are parameters
     ok = A("value is not None") in texts_t and A("value != ''") in texts_t and A("var.any_type") in texts_t and not bare
     ctx.ob("convert_element: the xsi:type marker depends on `value is not None`, `value != \"\"` and var.any_type - never on the truthiness of the value", ok, at=ce, node=y.ast, construct="any_type marker guard",
            msg="a truthiness test drops the marker for 0, False, 0.0, Decimal(0): the value is written without xsi:type and parses back as the string '0' / 'false'")
-    ds = [t for t in deps_true if A(unparse(t.ast)) == A("datatype != DataType.STRING")]
+    ds = [t for t in deps_true if L(ce, t.ast) == A("_ != DataType.STRING")]
     ctx.ob("convert_element: strings are the only datatype written without a marker", len(ds) == 1, at=ce, construct="string exempt", msg="marker exemption changed")
 
 
